@@ -306,14 +306,21 @@ pub struct Lmdb(Option<LmdbStorage>, PathBuf);
 impl Lmdb {
     async fn close(&mut self) {
         if let Some(s) = self.0.take() {
+            // heed caches opened environments globally; a real close needs every clone to be
+            // gone. LMDB binds a reader slot to the database's worker thread and releases it in
+            // a thread-exit destructor that touches the environment's lock table: closing the
+            // environment while that thread is still exiting crashed the checker (SIGSEGV in
+            // mdb_env_reader_dest, once in a few thorough runs). So: drop the handle, wait
+            // for the worker thread to be gone (hook datacake_lmdb::verif::join_worker), and
+            // only then give up the last references.
             let env = s.handle().env().clone();
             drop(s);
-            // heed caches opened environments globally; a real close needs every clone
-            // (including the worker thread's) to be gone.
-            let closing = env.prepare_for_closing();
-            tokio::task::spawn_blocking(move || closing.wait())
-                .await
-                .expect("wait for lmdb close");
+            tokio::task::spawn_blocking(move || {
+                datacake_lmdb::verif::join_worker(env.path());
+                env.prepare_for_closing().wait()
+            })
+            .await
+            .expect("wait for lmdb close");
         }
     }
 }
@@ -388,10 +395,48 @@ async fn apply_call<B: Backend>(b: B, call: &Call) -> Result<B, String> {
 }
 
 /// Compares the backend's whole read surface with the model. Returns (clause, text).
+
+/// Keyspace list: every keyspace holding a row is listed; nothing outside the alphabet.
+/// Asked at several moments of an observation (before any other read, between the reads
+/// of the keyspaces, at the end), because a handle may answer from what it has touched so
+/// far — after a reopen that differs from what the database holds.
+async fn check_keyspace_list<S: Storage>(s: &S, model: &Model, moment: &'static str, bad: &mut Vec<(&'static str, String)>)
+where
+    S::Error: std::fmt::Display,
+{
+    match s.get_keyspace_list().await {
+        Err(e) => bad.push(("keyspace-list-error", format!("get_keyspace_list failed ({moment}): {e}"))),
+        Ok(list) => {
+            let listed: BTreeSet<String> = list.iter().cloned().collect();
+            if listed.len() != list.len() {
+                bad.push(("keyspace-list-duplicates", format!("keyspace list has duplicates ({moment}): {list:?}")));
+            }
+            for (ki, ks) in KEYSPACES.iter().enumerate() {
+                let has_rows = model.slots.keys().any(|(k, _)| *k == ki as u8);
+                if has_rows && !listed.contains(*ks) {
+                    bad.push((
+                        "keyspace-with-rows-not-listed",
+                        format!("keyspace {ks} holds rows but get_keyspace_list ({moment}) returned {list:?}"),
+                    ));
+                }
+            }
+            for l in &listed {
+                if !KEYSPACES.contains(&l.as_str()) {
+                    bad.push(("unknown-keyspace-listed", format!("keyspace list ({moment}) contains {l:?}")));
+                }
+            }
+        },
+    }
+}
+
 async fn observe<B: Backend>(b: &B, model: &Model) -> Vec<(&'static str, String)> {
     let mut bad = Vec::new();
     let s = b.storage();
+    check_keyspace_list(s, model, "before any other read", &mut bad).await;
     for (ki, ks) in KEYSPACES.iter().enumerate() {
+        if ki > 0 {
+            check_keyspace_list(s, model, "between the reads of two keyspaces", &mut bad).await;
+        }
         let ki = ki as u8;
         // get
         for (ii, id) in IDS.iter().enumerate() {
@@ -474,30 +519,7 @@ async fn observe<B: Backend>(b: &B, model: &Model) -> Vec<(&'static str, String)
             },
         }
     }
-    // keyspace list: every keyspace holding a row is listed; nothing outside the alphabet
-    match s.get_keyspace_list().await {
-        Err(e) => bad.push(("keyspace-list-error", format!("get_keyspace_list failed: {e}"))),
-        Ok(list) => {
-            let listed: BTreeSet<String> = list.iter().cloned().collect();
-            if listed.len() != list.len() {
-                bad.push(("keyspace-list-duplicates", format!("keyspace list has duplicates: {list:?}")));
-            }
-            for (ki, ks) in KEYSPACES.iter().enumerate() {
-                let has_rows = model.slots.keys().any(|(k, _)| *k == ki as u8);
-                if has_rows && !listed.contains(*ks) {
-                    bad.push((
-                        "keyspace-with-rows-not-listed",
-                        format!("keyspace {ks} holds rows but get_keyspace_list returned {list:?}"),
-                    ));
-                }
-            }
-            for l in &listed {
-                if !KEYSPACES.contains(&l.as_str()) {
-                    bad.push(("unknown-keyspace-listed", format!("keyspace list contains {l:?}")));
-                }
-            }
-        },
-    }
+    check_keyspace_list(s, model, "after reading every keyspace", &mut bad).await;
     // raw rows (SQLite): exactly the model's rows
     if let Some(rows) = b.raw_rows().await {
         let mut want = Vec::new();
@@ -708,8 +730,8 @@ pub fn run(tier: Tier) -> i32 {
         run_one("MemStore", explore::<MemBackend>(&reduced, 64, 1_000_000), "reduced alphabet, closure".into());
         run_one("SQLite memory", explore::<SqliteMem>(&tiny, 64, 1_000_000), "tiny alphabet, closure".into());
         run_one("SQLite memory (64 KiB payloads, top-second stamps)", explore::<SqliteMem>(&full, 1, 1_000_000), "full alphabet, depth 1".into());
-        run_one("SQLite file", explore::<SqliteFile>(&tiny, 2, 1_000_000), "tiny alphabet + reopen, depth 2".into());
-        run_one("LMDB", explore::<Lmdb>(&tiny, 2, 1_000_000), "tiny alphabet + reopen, depth 2".into());
+        run_one("SQLite file", explore::<SqliteFile>(&tiny, 3, 1_000_000), "tiny alphabet + reopen, depth 3".into());
+        run_one("LMDB", explore::<Lmdb>(&tiny, 3, 1_000_000), "tiny alphabet + reopen, depth 3".into());
     }
 
     let states = total.get("states");
